@@ -21,6 +21,16 @@ let run_case op t =
   | "default_init" ->
       let o = obj_of (next_str t) in
       ("ok " ^ zs (default_obs_poisoned o), "ok " ^ zs (empty_state o))
+  | "tofloat" ->
+      (* tofloat <d|f> <n c1..cn> <off> <len>: to_floating_point on the view (buf + off, len) of an exact-size buffer *)
+      let _ = next_str t in
+      let buf = next_zlist t in
+      let off = next_z t in
+      let len = next_z t in
+      let v = { vbuf = buf; voff = off; vlen = len } in
+      let show (e, p) = "ok " ^ str_of_z e ^ " " ^ str_of_z p in
+      let m = match tfp_scan v with Ok r -> show r | Contract -> "contract" | UB _ -> "ub" | OutOfFuel -> "outoffuel" in
+      (m, show (tfp_spec (vchars v)))
   | _ -> raise Not_found
 
 let () = main run_case
